@@ -136,10 +136,10 @@ impl C18 {
 impl Check for C18 {
     fn id(&self) -> &'static str { "C18" }
     fn rule(&self) -> String {
-        "exhaustive grid: (read, write, connect) in {None, 0, 1 ns, 1 ms, u64::MAX s}^3 x retries in {0, 1, 2, usize::MAX-1, usize::MAX} x construction path {TimeoutSettings::new, a clap Parser flattening TimeoutSettings (whole seconds), serde_json} + Default. Oracle 1: any zero duration is rejected on every path (InvalidInput / parse error) and no path yields a value containing a zero duration. Oracle 2: every accepted value constructs real UdpSocketImpl/TcpSocketImpl on loopback, runs one scripted query of every protocol entry point against a valid, a malformed and a silent server (runs cut by the step monitor at 10 000 operations are counted, not judged), and Eco over loopback HTTP, without a panic; the CLI is run with zero/huge timeout flags and must not exit with a panic. non-trivial = a configuration whose verdicts were reached; distinct by (path, grid point)".into()
+        "exhaustive grid: (read, write, connect) in {None, 0, 1 ns, 1 ms, u64::MAX s}^3 x retries in {0, 1, 2, usize::MAX-1, usize::MAX} x construction path {TimeoutSettings::new, a clap Parser flattening TimeoutSettings (whole seconds), serde_json} + Default. Oracle 1: any zero duration is rejected on every path (InvalidInput / parse error) and no path yields a value containing a zero duration. Oracle 2: every accepted value constructs real UdpSocketImpl/TcpSocketImpl on loopback, runs one scripted query of every protocol entry point against a valid, a malformed and a silent server (runs cut by the step monitor at 10 000 operations are counted, not judged), and Eco over loopback HTTP, without a panic; the CLI is run with zero/huge timeout flags and must not exit with a panic. Oracle 3: 27 spellings of numbers (00, +0, -0, 0x0, 0.0, non-ASCII digits, 2^64, ...) on each of the three clap flags: accepted => non-zero and usable. Oracle 4: the retry helper with 10^4 / 3*10^5 / 3*10^6 retries against attempts that fail at once returns the timeout-class error after retries+1 calls on a 2 MiB thread stack. non-trivial = a configuration whose verdicts were reached; distinct by (path, grid point)".into()
     }
     fn assumptions(&self) -> Vec<String> { vec!["clap expresses whole seconds only: 1 ns / 1 ms map to 1 s and None to an absent flag".into(), "serde input uses serde's {secs, nanos} Duration form".into()] }
-    fn total_cases(&self, _tier: Tier) -> u64 { 125 * 5 * 3 + 2 }
+    fn total_cases(&self, _tier: Tier) -> u64 { 125 * 5 * 3 + 4 }
     fn exhaustive(&self, _tier: Tier) -> Option<bool> { Some(true) }
     fn level(&self) -> &'static str { "exploration" }
     fn run_case(&mut self, cx: &mut Cx) {
@@ -156,6 +156,14 @@ impl Check for C18 {
         }
         if idx == 125 * 5 * 3 + 1 {
             self.cli_and_eco(cx);
+            return;
+        }
+        if idx == 125 * 5 * 3 + 2 {
+            self.clap_spellings(cx);
+            return;
+        }
+        if idx == 125 * 5 * 3 + 3 {
+            self.many_retries(cx);
             return;
         }
         let path = [Path::New, Path::Clap, Path::Serde][(idx % 3) as usize];
@@ -226,11 +234,75 @@ impl Check for C18 {
         }
         Ok(())
     }
-    fn extra_coverage(&self, _tier: Tier, m: &Stats) -> Value { json!({"grid_points": 125 * 5 * 3, "zero_rejected": m.counters.get("zero-rejected"), "accepted": m.counters.get("accepted"), "accepted_and_used": m.counters.get("accepted-and-used"), "cut_at_step_limit": m.counters.get("cut-at-step-limit (not a verdict)")}) }
+    fn extra_coverage(&self, _tier: Tier, m: &Stats) -> Value { json!({"clap_spellings_rejected": m.counters.get("clap-spelling-rejected"), "clap_spellings_accepted_non_zero": m.counters.get("clap-spelling-accepted-non-zero"), "many_retries_ok": m.counters.get("many-retries-ok"), "grid_points": 125 * 5 * 3, "zero_rejected": m.counters.get("zero-rejected"), "accepted": m.counters.get("accepted"), "accepted_and_used": m.counters.get("accepted-and-used"), "cut_at_step_limit": m.counters.get("cut-at-step-limit (not a verdict)")}) }
     fn budget_s(&self, tier: Tier) -> u64 { tier.pick(120, 600) }
 }
 
 impl C18 {
+    /// every way of writing a number that the flag parser may accept: whatever it accepts is a non-zero duration that
+    /// can be used
+    fn clap_spellings(&self, cx: &mut Cx) {
+        let spellings = ["0", "00", "+0", "+00", "-0", "0000000000000000000000", " 0", "0 ", "0x0", "0.0", "0e0", ".0", "0_0", "1", "01", "+1", "001", "18446744073709551615", "18446744073709551616", "+18446744073709551615", "1e3", "1.5", "\u{0660}", "\u{ff10}", "", "nan", "inf"];
+        for flag in ["--read-timeout", "--write-timeout", "--connect-timeout"] {
+            for sp in spellings {
+                let args: Vec<String> = vec!["w".into(), format!("{flag}={sp}")];
+                let label = format!("Clap|{flag}={sp:?}");
+                let (o, _) = guarded(|| Wrapper::try_parse_from(args.clone()).map(|w| w.timeouts).map_err(|e| format!("clap: {}", e.kind())));
+                cx.eval();
+                match o {
+                    Outcome::Panicked(p) => cx.violation(format!("C18 panic constructing via Clap at {}", p.loc), || json!({"case": label, "panic": p.msg})),
+                    Outcome::Returned(Err(_)) => {
+                        cx.count("clap-spelling-rejected");
+                        cx.nontrivial(hash64(label.as_bytes()));
+                    }
+                    Outcome::Returned(Ok(ts)) => {
+                        if has_zero(&ts) {
+                            cx.violation(format!("C18 zero-duration accepted path=Clap field={} spelling=non-canonical", flag.trim_start_matches("--").trim_end_matches("-timeout")), || json!({"case": label, "value": format!("{ts:?}")}));
+                            let (o, _) = guarded(|| {
+                                let peer = std::net::UdpSocket::bind("127.0.0.1:0").ok()?;
+                                UdpSocketImpl::new(&peer.local_addr().ok()?, &Some(ts)).ok().map(|_| ())
+                            });
+                            if let Outcome::Panicked(p) = o {
+                                cx.violation(format!("C18 panic using accepted zero duration path=Clap at {}", p.loc), || json!({"case": label, "panic": p.msg}));
+                            }
+                        } else {
+                            cx.count("clap-spelling-accepted-non-zero");
+                            cx.nontrivial(hash64(label.as_bytes()));
+                        }
+                    }
+                    _ => {}
+                }
+            }
+        }
+    }
+
+    /// a large retry count with a peer that fails every attempt at once: the retry helper must come back with the
+    /// timeout-class error, on an ordinary 2 MiB thread stack (a crash here takes the worker down and is attributed
+    /// to this case by the supervisor)
+    fn many_retries(&self, cx: &mut Cx) {
+        use gamedig::verif_hook::retry_on_timeout;
+        for n in [10_000usize, 300_000, 3_000_000] {
+            let h = std::thread::Builder::new().stack_size(2 << 20).spawn(move || {
+                let mut calls = 0u64;
+                let r: gamedig::GDResult<()> = retry_on_timeout(n, || {
+                    calls += 1;
+                    Err(GDErrorKind::PacketReceive.into())
+                });
+                (r.map_err(|e| e.kind), calls)
+            });
+            let Ok(h) = h else { return cx.inconclusive("cannot spawn a thread") };
+            cx.eval();
+            match h.join() {
+                Ok((Err(GDErrorKind::PacketReceive), calls)) if calls == n as u64 + 1 => {
+                    cx.count("many-retries-ok");
+                    cx.nontrivial(hash64(&n.to_le_bytes()));
+                }
+                Ok((r, calls)) => cx.violation("C18 retry helper wrong outcome with many retries", || json!({"retries": n, "calls": calls, "result": format!("{r:?}")})),
+                Err(_) => cx.violation("C18 panic in the retry helper with many retries", || json!({"retries": n})),
+            }
+        }
+    }
+
     fn cli_and_eco(&self, cx: &mut Cx) {
         // Eco with extreme settings over loopback HTTP
         for (r, w, c, retries) in [(D::Ns1, D::Ns1, D::Ns1, 0usize), (D::Max, D::Max, D::Max, usize::MAX), (D::Ms1, D::None, D::Max, 2)] {
